@@ -108,6 +108,7 @@ func TestC33(t *testing.T) {
 	defer c.Finish()
 	c.Floor("round_trips_completed", 30)
 	c.Floor("origin_rejected", 0)
+	c.Floor("multi_hop_round_trips_completed", 8)
 	n := c.N(5, 10)
 	per := 40
 	for i := 0; i < n; i++ {
@@ -132,6 +133,26 @@ func TestC33(t *testing.T) {
 				s.roundTrip(c, a, b, lane, base, int64(10+r.Intn(90)))
 			}
 		})
+		if err == nil {
+			// multi-hop routes: 2 or 3 hops around a triangle of chains and back over the same channels in reverse
+			err = kit.Try(func() {
+				s := NewSim(c, r, Triangle())
+				for _, ch := range s.Ch {
+					ch.OnTx = nil
+				}
+				for j := 0; j < per/4; j++ {
+					base := genBase(r)
+					if r.Intn(3) == 0 {
+						base = kit.Pick(r, []string{"uatom", "stk", "foo"})
+					}
+					if sdk.ValidateDenom(base) != nil {
+						c.Inc("bank_rejects_denom")
+						continue
+					}
+					s.routeTrip(c, r, base, int64(10+r.Intn(90)), 2+r.Intn(2))
+				}
+			})
+		}
 		c.Inc("cases")
 		if err != nil {
 			c.Inconcl(err.Error())
@@ -232,6 +253,129 @@ func (s *Sim) roundTrip(c *kit.Check, a, b *kit.Chain, lane *Lane, base string, 
 		c.Sample(map[string]any{"base": base, "lane": lane.Kind, "voucher": voucher.Denom, "returned": amt})
 	}
 	_ = clienttypes.ZeroHeight
+}
+
+// routeTrip: `base` leaves chain 0 and travels `hops` hops around the triangle (0→1→2→0), each over a lane picked at random; then the
+// voucher goes back over the same lanes in reverse. Every return leg must be accepted, must credit exactly the denomination that left
+// over that lane and must release it from that lane's escrow account; the last one releases the native denomination on chain 0.
+func (s *Sim) routeTrip(c *kit.Check, r *kit.Rng, base string, amt int64, hops int) {
+	s.observeOnly = true
+	for i, ch := range s.Ch {
+		idx := i
+		ch.OnTx = func(o *kit.Outcome) { s.collect(idx, o) }
+	}
+	defer func() {
+		for _, ch := range s.Ch {
+			ch.OnTx = nil
+		}
+	}()
+	type leg struct {
+		lane      *Lane
+		from, to  int
+		denom     string // bank denomination that left chain `from` on the way out
+		fromAcct  int
+		heldDenom string // bank denomination credited on chain `to`
+	}
+	if err := kit.Try(func() { s.Ch[0].Fund(s.Ch[0].Addr(1), base, amt) }); err != nil {
+		c.Inc("fund_failed")
+		return
+	}
+	var legs []leg
+	cur, acct, denom := 0, 1, base
+	kinds := ""
+	for h := 0; h < hops; h++ {
+		next := (cur + 1) % 3
+		var cands []*Lane
+		for _, l := range s.Lanes {
+			if l.side(cur) >= 0 && l.side(next) >= 0 {
+				cands = append(cands, l)
+			}
+		}
+		lane := cands[r.Intn(len(cands))]
+		dst := s.Ch[next]
+		recv := dst.Addr(2)
+		balBefore := dst.Sim.BankKeeper.GetAllBalances(dst.GetContext(), recv)
+		before := len(s.Pkts)
+		o := s.Send(SendOpt{Lane: lane, SrcSide: lane.side(cur), Sender: acct, Signer: acct, Denom: denom, Amt: amt, Receiver: recv.String()})
+		if o == nil || !o.OK() || len(s.Pkts) == before {
+			// an onward leg that the holder's chain refuses (e.g. '/' in the base over an IBC v2 lane) is outside the statement
+			c.Inc("route_onward_leg_rejected")
+			c.Eval("")
+			break
+		}
+		p := s.Pkts[len(s.Pkts)-1]
+		s.Recv(p)
+		if !p.Received || p.RecvResult != "success" {
+			c.Inc("route_onward_leg_not_received")
+			c.Eval("")
+			if p.AckV1 != nil || p.AckV2 != nil {
+				s.Ack(p)
+			}
+			break
+		}
+		s.Ack(p)
+		var voucher sdk.Coin
+		for _, coin := range dst.Sim.BankKeeper.GetAllBalances(dst.GetContext(), recv) {
+			if d := coin.Amount.Sub(balBefore.AmountOf(coin.Denom)); d.IsPositive() {
+				voucher = sdk.NewCoin(coin.Denom, d)
+			}
+		}
+		if voucher.Denom == "" || !voucher.Amount.Equal(sdkmath.NewInt(amt)) {
+			c.Violate("C33|voucher-not-credited|"+failClass(base), fmt.Sprintf("denom %q hop %d: successful receive credited %v instead of %d of a voucher", base, h+1, voucher, amt), nil)
+			return
+		}
+		legs = append(legs, leg{lane: lane, from: cur, to: next, denom: denom, fromAcct: acct, heldDenom: voucher.Denom})
+		kinds += lane.Kind[:2]
+		cur, acct, denom = next, 2, voucher.Denom
+	}
+	if len(legs) < 2 {
+		return
+	}
+	c.Inc("routes_outbound_completed")
+	class := fmt.Sprintf("%s|route-%d-%s", shapeOf(base), len(legs), kinds)
+	// way back, last leg first
+	holderAcct := 2
+	for i := len(legs) - 1; i >= 0; i-- {
+		lg := legs[i]
+		dst := s.Ch[lg.from]
+		idBack := lg.lane.Ends[lg.lane.side(lg.from)].ID
+		escrow := transfertypes.GetEscrowAddress(port, idBack)
+		recv := dst.Addr(3)
+		escBefore, balBefore := dst.Bal(escrow, lg.denom), dst.Bal(recv, lg.denom)
+		before := len(s.Pkts)
+		o := s.Send(SendOpt{Lane: lg.lane, SrcSide: lg.lane.side(lg.to), Sender: holderAcct, Signer: holderAcct, Denom: lg.heldDenom, Amt: amt, Receiver: recv.String()})
+		if o == nil || !o.OK() || len(s.Pkts) == before {
+			log := ""
+			if o != nil {
+				log = clip(o.Log, 160)
+			}
+			c.Eval(class + "|return-rejected")
+			c.Violate("C33|return-fails|"+failClass(base), fmt.Sprintf("base %q, route of %d hops (%s): on the way back, leg %d, voucher %s could not be sent from chain %d over %s: %s", base, len(legs), kinds, i+1, lg.heldDenom, lg.to, lg.lane.Ends[lg.lane.side(lg.to)].ID, log), map[string]any{"base": base, "hops": len(legs), "lanes": kinds})
+			return
+		}
+		p := s.Pkts[len(s.Pkts)-1]
+		s.Recv(p)
+		if !p.Received || p.RecvResult != "success" {
+			c.Eval(class + "|return-error-ack")
+			c.Violate("C33|return-fails|"+failClass(base), fmt.Sprintf("base %q, route of %d hops (%s): on the way back, leg %d, chain %d did not accept the returning voucher (path %q, result %q)", base, len(legs), kinds, i+1, lg.from, p.Path, p.RecvResult), map[string]any{"base": base, "hops": len(legs), "lanes": kinds, "path": p.Path})
+			if p.AckV1 != nil || p.AckV2 != nil {
+				s.Ack(p)
+			}
+			return
+		}
+		s.Ack(p)
+		got := dst.Bal(recv, lg.denom).Sub(balBefore)
+		rel := escBefore.Sub(dst.Bal(escrow, lg.denom))
+		if !got.Equal(sdkmath.NewInt(amt)) || !rel.Equal(sdkmath.NewInt(amt)) {
+			c.Eval(class + "|wrong-release")
+			c.Violate("C33|origin-did-not-release-original-denom|"+failClass(base), fmt.Sprintf("base %q, route of %d hops (%s): on the way back, leg %d, receiver on chain %d got %s of %s, escrow of %s released %s, expected %d", base, len(legs), kinds, i+1, lg.from, got, clip(lg.denom, 20), idBack, rel, amt), map[string]any{"base": base, "hops": len(legs), "lanes": kinds})
+			return
+		}
+		c.Inc("route_return_legs_completed")
+		holderAcct = 3
+	}
+	c.Inc("multi_hop_round_trips_completed")
+	c.Eval(class)
 }
 
 // collect is a reduced observer for C33: it only maintains the truth log (packets, receipts, acks).
